@@ -30,6 +30,15 @@ Proof.
   apply tbl_new_inv2; [eapply sx_hdr_ok; [|exact Eh]; reflexivity | reflexivity].
 Qed.
 
+Lemma madt_new_empty c s0 : madt_new c = Some s0 -> t_ents s0 = [].
+Proof.
+  unfold madt_new. destruct c as [|l]; [discriminate|].
+  destruct l as [|o [|t [|r [|lic [|x l]]]]]; try discriminate.
+  destruct (sx_hdr _ _ _ _ _); [|discriminate]. cbn [option_bind].
+  destruct (match lic with SL [] => Some 0 | SL [SA a] => Some a | _ => None end); [|discriminate].
+  cbn [option_bind]. intros H. inversion H; subst. reflexivity.
+Qed.
+
 Lemma madt_addition_sound s o e : t_kind s = KMadt -> madt_addition s o = Some e ->
   a_claimed e = N.of_nat (length (a_bytes e)) /\
   (needs_pos (t_kind s) = true -> (1 <= length (a_bytes e))%nat /\ a_claimed e < 2 ^ 16).
@@ -39,3 +48,103 @@ Proof.
   destruct (madt_entry o); [|discriminate]. cbn [option_bind]. intros H. inversion H; subst; cbn [a_claimed a_bytes].
   split; [reflexivity|]. rewrite Hk. discriminate.
 Qed.
+
+(* ---- C03: every MADT structure describes itself (type u8, length u8) ---- *)
+From ACPI Require Import Spec.Layout Proofs.WalkP.
+
+Definition head2 (f : flds) : option (N * N) :=
+  match f with (1%nat, t) :: (1%nat, n) :: _ => Some (t, n) | _ => None end.
+
+Lemma fset_head2 f i v : (2 <= i)%nat -> head2 (fset f i v) = head2 f.
+Proof. intros H. destruct f as [|[w0 v0] [|[w1 v1] r]]; destruct i as [|[|i]]; try lia; reflexivity. Qed.
+Lemma f_or_head2 f i v : (2 <= i)%nat -> head2 (f_or f i v) = head2 f.
+Proof. intros H. destruct f as [|[w0 v0] [|[w1 v1] r]]; destruct i as [|[|i]]; try lia; reflexivity. Qed.
+Lemma fset_len f i v : flds_len (fset f i v) = flds_len f.
+Proof. revert i; induction f as [|[w x] f IH]; intros [|i]; cbn [fset flds_len]; auto. Qed.
+Lemma f_or_len f i v : flds_len (f_or f i v) = flds_len f.
+Proof. revert i; induction f as [|[w x] f IH]; intros [|i]; cbn [f_or flds_len]; auto. Qed.
+Lemma length_ser_flds f : length (ser_flds f) = flds_len f.
+Proof.
+  induction f as [|[w x] f IH]; [reflexivity|]. unfold ser_flds in *. cbn [map concat fst snd flds_len].
+  rewrite app_length, length_le, IH. reflexivity.
+Qed.
+
+(* a field list starting with a one-byte type and a one-byte length equal to its size describes itself *)
+Definition good_entry (f : flds) : Prop :=
+  exists t n, head2 f = Some (t, n) /\ t < 256 /\ n < 256 /\ N.to_nat n = flds_len f /\ (1 <= flds_len f)%nat.
+
+Lemma good_entry_self f : good_entry f -> exists ty, self_describing H_u8_u8 (ser_flds f) ty.
+Proof.
+  intros (t & n & Hh & Ht & Hn & Hl & Hp). exists t.
+  destruct f as [|[w0 v0] [|[w1 v1] r]]; cbn [head2] in Hh; try discriminate;
+    try (destruct w0 as [|[|w0]]; discriminate).
+  destruct w0 as [|[|w0]]; destruct w1 as [|[|w1]]; cbn [head2] in Hh; try discriminate. inversion Hh; subst.
+  split; [rewrite length_ser_flds; exact Hp|]. intros rest. rewrite length_ser_flds, <- Hl.
+  unfold ser_flds. cbn [map concat fst snd le app read_ehdr]. rewrite !N.mod_small by lia. reflexivity.
+Qed.
+
+Ltac break_match H := match type of H with context [match ?x with _ => _ end] => destruct x; try discriminate H end.
+
+Lemma gicc_setter_inv f o f' : gicc_setter f o = Some f' -> head2 f' = head2 f /\ flds_len f' = flds_len f.
+Proof.
+  unfold gicc_setter. intros H. repeat break_match H; inversion H; subst;
+    rewrite ?fset_head2, ?f_or_head2, ?fset_len, ?f_or_len by lia; auto.
+Qed.
+
+Lemma gicmsi_setter_inv f o f' : gicmsi_setter f o = Some f' -> head2 f' = head2 f /\ flds_len f' = flds_len f.
+Proof.
+  unfold gicmsi_setter. intros H. repeat break_match H; inversion H; subst;
+    rewrite ?fset_head2, ?f_or_head2, ?fset_len, ?f_or_len by lia; auto.
+Qed.
+
+Lemma apply_setters_inv setter :
+  (forall f o f', setter f o = Some f' -> head2 f' = head2 f /\ flds_len f' = flds_len f) ->
+  forall l f f', apply_setters setter f l = Some f' -> head2 f' = head2 f /\ flds_len f' = flds_len f.
+Proof.
+  intros Hs. induction l as [|o l IH]; intros f f' H; cbn [apply_setters] in H.
+  - inversion H; auto.
+  - destruct (setter f o) as [f1|] eqn:E; [|discriminate]. destruct (Hs _ _ _ E) as [H1 H2].
+    destruct (IH _ _ H) as [H3 H4]. split; congruence.
+Qed.
+
+Lemma good_entry_intro f t n : head2 f = Some (t, n) -> t < 256 -> n < 256 -> N.to_nat n = flds_len f -> (1 <= flds_len f)%nat -> good_entry f.
+Proof. intros. exists t, n. auto. Qed.
+
+Lemma madt_entry_good o f : madt_entry o = Some f -> good_entry f.
+Proof.
+  unfold madt_entry. intros H. repeat break_match H;
+    try (inversion H; subst; eapply good_entry_intro; [reflexivity|lia|lia|reflexivity|cbn; lia]);
+    match type of H with
+    | apply_setters gicc_setter _ _ = _ =>
+        destruct (apply_setters_inv gicc_setter gicc_setter_inv _ _ _ H) as [Hh Hl];
+        eapply good_entry_intro; [rewrite Hh; reflexivity|lia|lia|rewrite Hl; reflexivity|rewrite Hl; cbn; lia]
+    | apply_setters gicmsi_setter _ _ = _ =>
+        destruct (apply_setters_inv gicmsi_setter gicmsi_setter_inv _ _ _ H) as [Hh Hl];
+        eapply good_entry_intro; [rewrite Hh; reflexivity|lia|lia|rewrite Hl; reflexivity|rewrite Hl; cbn; lia]
+    | context [sx_arr 8 ?x] =>
+        destruct (sx_arr 8 x) as [hw|] eqn:Eh; [|discriminate]; cbn [option_bind] in H; inversion H; subst;
+        pose proof (sx_arr_length _ _ _ Eh) as Hlen; do 8 (destruct hw as [|? hw]; [discriminate|]); (destruct hw; [|discriminate]);
+        eapply good_entry_intro; [reflexivity|lia|lia|reflexivity|cbn; lia]
+    end.
+Qed.
+
+Lemma madt_addition_self s o e : madt_addition s o = Some e -> exists ty, self_describing H_u8_u8 (a_bytes e) ty.
+Proof.
+  unfold madt_addition. destruct (assert _); [|discriminate]. cbn [option_bind].
+  destruct (madt_entry o) as [f|] eqn:E; [|discriminate]. cbn [option_bind]. intros H. inversion H; subst. cbn [a_bytes].
+  apply good_entry_self. eapply madt_entry_good; eauto.
+Qed.
+
+(* ---- C04: the implementation's structures are the reference layouts (structures built by a constructor alone) ---- *)
+From ACPI Require Import Spec.MadtS.
+
+Lemma madt_simple_entries_are_reference :
+  (forall uid id en, madt_entry_ref (SL [SA 1; SA uid; SA id; SA en]) = Some (ser_flds (local_apic uid id en))) /\
+  (forall id addr gsi, madt_entry_ref (SL [SA 2; SA id; SA addr; SA gsi]) = Some (ser_flds (io_apic id addr gsi))) /\
+  (forall id base ver, madt_entry_ref (SL [SA 4; SA id; SA base; SA ver]) = Some (ser_flds (gicd id base ver))) /\
+  (forall base len, madt_entry_ref (SL [SA 6; SA base; SA len]) = Some (ser_flds (gicr base len))) /\
+  (forall id base, madt_entry_ref (SL [SA 7; SA id; SA base]) = Some (ser_flds (gic_its id base))) /\
+  (forall st hart uid ext ib isz,
+      madt_entry_ref (SL [SA 8; SA st; SA hart; SA uid; SA ext; SA ib; SA isz]) = Some (ser_flds (rintc st hart uid ext ib isz))) /\
+  (forall a b c d e g, madt_entry_ref (SL [SA 9; SA a; SA b; SA c; SA d; SA e; SA g]) = Some (ser_flds (imsic a b c d e g))).
+Proof. repeat split; intros; reflexivity. Qed.
